@@ -44,7 +44,28 @@ func kindClass(k reflect.Kind) int {
 	return 6
 }
 
+// cmpValues is a TOTAL order on map keys: by value, then by type name (int(1)
+// and int64(1) are distinct keys of a map[any]any).
 func cmpValues(a, b reflect.Value) int {
+	if c := cmpValues1(a, b); c != 0 {
+		return c
+	}
+	for a.IsValid() && a.Kind() == reflect.Interface {
+		a = a.Elem()
+	}
+	for b.IsValid() && b.Kind() == reflect.Interface {
+		b = b.Elem()
+	}
+	if a.IsValid() && b.IsValid() && a.Type() != b.Type() {
+		if a.Type().String() < b.Type().String() {
+			return -1
+		}
+		return 1
+	}
+	return 0
+}
+
+func cmpValues1(a, b reflect.Value) int {
 	for a.IsValid() && a.Kind() == reflect.Interface {
 		a = a.Elem()
 	}
